@@ -1,7 +1,6 @@
 (* C01 — a compiled field returns exactly what composing the user functions returns.
    Property theorems only; proofs live in Proofs/{Sim,L2,Counts,C01Main,C01Inst}.v. *)
 From Connectome Require Import Values Attrs VM Edges Evaluator L2 HashSound SpecEq C01Main C01Inst C01Readable EdgeFacts RaiseDir C01Raise Examples.
-From Connectome Require VmGen.
 From Connectome Require EvictGen GraphGen.
 Local Open Scope list_scope.
 
@@ -103,10 +102,19 @@ Theorem C01_eviction_tables_are_translated :
 Proof. repeat split; reflexivity. Qed.
 Print Assumptions C01_eviction_tables_are_translated.
 
-(* The machine model (Model/VM.v: step, run) mirrors engine/vm.py execute arm by arm and is compared with it on full event traces.
-   The fingerprints (sha256 of the normalised body) are regenerated on every run; an edit of one of these functions re-opens this property
-   even if no sampled case shows a difference. *)
+(* BEGIN PINNED FINGERPRINTS (tools/pin_shapes.py) *)
+(* The functions and classes of /repo that hand-written parts of the model mirror (Model/VM.v, NameLevel.v, Loopback.v) and the glue around the modelled core
+   this property is anchored in: the fingerprints (sha256 of the normalised source, comments and docstrings dropped) are regenerated on every run; an edit of one
+   of them re-opens this property even if no sampled case shows a difference.  Rewritten by tools/pin_shapes.py on a tree on which every check passes. *)
+From Connectome Require VmGen GlueGraphGen.
 Theorem C01_mirrored_functions_are_the_pinned_ones :
-  VmGen.shape_execute = "3390af1da9648cc9".
+  VmGen.shape_execute = "3390af1da9648cc9" /\
+  GlueGraphGen.shape_class_Graph = "9b10ec592949c6f4" /\
+  GlueGraphGen.shape_evaluate = "2cfd3509723284f1" /\
+  GlueGraphGen.shape_compute_hash = "e8fe66bcf0ec3ecc" /\
+  GlueGraphGen.shape_class_GraphCompiler = "b1003ba6d768dee1" /\
+  GlueGraphGen.shape_find_dependencies = "98effd5d1564b846" /\
+  GlueGraphGen.shape_class_TreeNode = "f3a44e95e44d05b5".
 Proof. repeat split; reflexivity. Qed.
 Print Assumptions C01_mirrored_functions_are_the_pinned_ones.
+(* END PINNED FINGERPRINTS *)
